@@ -286,13 +286,26 @@ def t_format_float(eng):
         af = B.np_abs(eng, [f], {})
         eng.assume(b_and(r_cmp('>=', af, lo), r_cmp('<', af, hi)))
         # the logarithm fact, attached to the very term the code computes
-        calls = [c for c in ast.walk(fn) if isinstance(c, ast.Call) and isinstance(c.func, ast.Name) and c.func.id == 'int'
-                 and 'log' in ast.unparse(c)]
+        # the precision computation may have been moved into a helper of the same module
+        cands = [fn] + [eng.repo.func(q) for q in sorted(eng.repo.functions) if '.' not in q and q != 'format_float'
+                        and eng.repo.module_of(q) == eng.repo.module_of('format_float')]
+        calls, host = [], fn
+        for cn in cands:
+            cs = [c for c in ast.walk(cn) if isinstance(c, ast.Call) and isinstance(c.func, ast.Name) and c.func.id == 'int'
+                  and 'log' in ast.unparse(c)]
+            if cs:
+                calls, host = cs, cn
+                break
         if len(calls) != 1:
             from pyvc.source import Unresolved
             raise Unresolved('int (log ...) in format_float')
-        env0 = {'f': f}
-        eng.frames.append({'fref': eng.fref('format_float'), 'env': env0, 'qual': 'format_float', 'node': fn})
+        names = sorted({x.id for x in ast.walk(calls[0].args[0]) if isinstance(x, ast.Name) and x.id not in ('np', 'abs', 'math')})
+        if len(names) != 1:
+            from pyvc.source import Unresolved
+            raise Unresolved('the value variable inside int (log ...)')
+        env0 = {names[0]: f}
+        hq = host.name if host is not fn else 'format_float'
+        eng.frames.append({'fref': eng.fref(hq), 'env': env0, 'qual': hq, 'node': host})
         try:
             t = eng.eval(calls[0].args[0], env0)
         finally:
